@@ -238,6 +238,8 @@ impl Store {
     #[tracing::instrument(skip(self))]
     pub async fn read(&self, options: ReadOptions) -> tokio::sync::mpsc::Receiver<Frame> {
         let (tx, rx) = tokio::sync::mpsc::channel(100);
+        #[cfg(feature = "verif-hooks")]
+        let verif_tag = crate::verif::next_tag();
 
         let should_follow = matches!(
             options.follow,
@@ -252,6 +254,9 @@ impl Store {
         } else {
             None
         };
+
+        #[cfg(feature = "verif-hooks")]
+        crate::verif::sync_point("read.after_subscribe", verif_tag, None);
 
         // Only create done channel if we're doing historical processing
         let done_rx = if !options.tail {
@@ -283,11 +288,16 @@ impl Store {
                         }
                     }
 
+                    #[cfg(feature = "verif-hooks")]
+                    crate::verif::sync_point("read.hist.before_send", verif_tag, Some(&frame));
                     if tx_clone.blocking_send(frame).is_err() {
                         return;
                     }
                     count += 1;
                 }
+
+                #[cfg(feature = "verif-hooks")]
+                crate::verif::sync_point("read.hist.before_threshold", verif_tag, None);
 
                 // Send threshold message if following and no limit
                 if should_follow_clone && options.limit.is_none() {
@@ -300,6 +310,9 @@ impl Store {
                         return;
                     }
                 }
+
+                #[cfg(feature = "verif-hooks")]
+                crate::verif::sync_point("read.hist.before_done", verif_tag, None);
 
                 // Signal completion with the last seen ID and count
                 let _ = done_tx.send((last_id, count));
@@ -328,6 +341,9 @@ impl Store {
 
                     let mut broadcast_rx = broadcast_rx;
                     while let Ok(frame) = broadcast_rx.recv().await {
+                        #[cfg(feature = "verif-hooks")]
+                        crate::verif::sync_point("read.live.after_recv", verif_tag, Some(&frame));
+
                         // Skip frames that do not match the context_id
                         if let Some(context_id) = options.context_id {
                             if frame.context_id != context_id {
@@ -345,6 +361,9 @@ impl Store {
                         if tx.send(frame).await.is_err() {
                             break;
                         }
+
+                        #[cfg(feature = "verif-hooks")]
+                        crate::verif::sync_point("read.live.after_send", verif_tag, None);
 
                         if let Some(limit) = limit {
                             count += 1;
@@ -434,6 +453,8 @@ impl Store {
         }
 
         batch.commit()?;
+        #[cfg(feature = "verif-hooks")]
+        crate::verif::sync_point("remove.after_commit", 0, Some(&frame));
         self.keyspace.persist(fjall::PersistMode::SyncAll)?;
         Ok(())
     }
@@ -484,12 +505,19 @@ impl Store {
         batch.insert(&self.idx_topic, topic_key, b"");
         batch.insert(&self.idx_context, idx_context_key_from_frame(frame), b"");
         batch.commit()?;
+        #[cfg(feature = "verif-hooks")]
+        crate::verif::sync_point("insert_frame.after_commit", 0, Some(frame));
         self.keyspace.persist(fjall::PersistMode::SyncAll)?;
         Ok(())
     }
 
     pub fn append(&self, mut frame: Frame) -> Result<Frame, crate::error::Error> {
+        #[cfg(feature = "verif-hooks")]
+        crate::verif::sync_point("append.enter", 0, Some(&frame));
         frame.id = scru128::new();
+
+        #[cfg(feature = "verif-hooks")]
+        crate::verif::sync_point("append.after_id", 0, Some(&frame));
 
         // Special handling for xs.context registration
         if frame.topic == "xs.context" {
@@ -523,7 +551,11 @@ impl Store {
             }
         }
 
+        #[cfg(feature = "verif-hooks")]
+        crate::verif::sync_point("append.after_commit", 0, Some(&frame));
         let _ = self.broadcast_tx.send(frame.clone());
+        #[cfg(feature = "verif-hooks")]
+        crate::verif::sync_point("append.after_broadcast", 0, Some(&frame));
         Ok(frame)
     }
 
@@ -576,6 +608,18 @@ impl Store {
 fn spawn_gc_worker(mut gc_rx: UnboundedReceiver<GCTask>, store: Store) {
     std::thread::spawn(move || {
         while let Some(task) = gc_rx.blocking_recv() {
+            #[cfg(feature = "verif-hooks")]
+            let verif_is_drain = matches!(task, GCTask::Drain(_));
+            #[cfg(feature = "verif-hooks")]
+            crate::verif::sync_point(
+                if verif_is_drain {
+                    "gc.before_drain"
+                } else {
+                    "gc.before_task"
+                },
+                0,
+                None,
+            );
             match task {
                 GCTask::Remove(id) => {
                     let _ = store.remove(&id);
@@ -606,6 +650,10 @@ fn spawn_gc_worker(mut gc_rx: UnboundedReceiver<GCTask>, store: Store) {
                     let _ = tx.send(());
                 }
             }
+            #[cfg(feature = "verif-hooks")]
+            if !verif_is_drain {
+                crate::verif::sync_point("gc.after_task", 0, None);
+            }
         }
     });
 }
@@ -617,6 +665,8 @@ fn is_expired(id: &Scru128Id, ttl: &Duration) -> bool {
         .duration_since(std::time::UNIX_EPOCH)
         .unwrap()
         .as_millis() as u64;
+    #[cfg(feature = "verif-hooks")]
+    let now_ms = crate::verif::adjust_now(now_ms);
 
     now_ms >= expires_ms
 }
